@@ -193,9 +193,16 @@ pub fn gen_entry(rng: &mut Rng, cfg: &J, allow_defect: bool, allow_huge: bool) -
     if split {
         items.push(json!({"k":"split"}));
     }
-    if rng.chance(0.15) {
+    if rng.chance(0.3) {
         items.push(json!({"k":"entry_dims","sets": if rng.chance(0.5) { json!([["tenant"]]) } else { json!([[], ["tenant"]]) }}));
-        items.push(json!({"k":"str","name":"tenant","text":"t1"}));
+        // defects that only concern the entry's own dimensions: the dimension field is missing,
+        // or a metric is written under the dimension's name (the same EntryDimensions value
+        // recurs across the entries of a history, valid and invalid)
+        match if allow_defect { rng.below(8) } else { 7 } {
+            0 => {}
+            1 => items.push(json!({"k":"metric","name":"tenant","obs":[{"t":"u","v":1}],"unit":0,"dims":[],"flag":0})),
+            _ => items.push(json!({"k":"str","name":"tenant","text": *rng.pick(&["t1", "t1", "t2"])})),
+        }
     }
     let nm = 1 + rng.below(5);
     for i in 0..nm {
